@@ -43,7 +43,19 @@ def one(name):
         env = dict(os.environ, OVLD_SRC=os.path.join(wt, "src"), VT_REPLAY_DIR=os.path.join(tmp, "replays"), VT_EVIDENCE_DIR=os.path.join(tmp, "evidence"))
         rc = subprocess.run(["/verif/check", check], env=env, capture_output=True, text=True, cwd="/verif")
         viol = sum(1 for l in rc.stdout.splitlines() if l.startswith("VIOLATION"))
-        return name, ("detected" if rc.returncode == 1 and viol else f"NOT-DETECTED(rc={rc.returncode})"), check
+        if rc.returncode == 1 and viol:
+            return name, "detected", check
+        # not detected: does the change still break the property on the current tree? (its own demonstration decides;
+        # a later `fix:` commit may have neutralised it)
+        demo = os.path.join(tmp, "demo.py")
+        import re
+        open(demo, "w").write(re.sub(r"/tmp/wt/C\d+", wt, open(f"/verif/seeded/{name}/demo.py").read()))
+        env2 = dict(os.environ, PYTHONPATH=os.path.join(wt, "src"))
+        env2.pop("OVLD_VERIF", None)
+        d = subprocess.run(["/venv/bin/python", demo], cwd=wt, env=env2, capture_output=True, text=True, timeout=600)
+        if d.returncode == 0:
+            return name, "neutralised-by-a-later-fix (its demonstration passes on the current tree with the patch)", check
+        return name, f"NOT-DETECTED(rc={rc.returncode})", check
     finally:
         subprocess.run(["git", "-C", "/repo", "worktree", "remove", "--force", wt], capture_output=True)
         shutil.rmtree(tmp, ignore_errors=True)
